@@ -114,6 +114,9 @@ def arith_el(op, ea, eb, ma_style):
 
 
 def binop_model(M, interp, op, a, b, node):
+    from . import models_pp
+    if isinstance(a, models_pp.Element) or isinstance(b, models_pp.Element):
+        return models_pp.binop(op, a, b, node)
     # plain python values
     if not isinstance(a, (Vec, Sc, Masked, FB, Vec2, IndexSet)) and not isinstance(b, (Vec, Sc, Masked, FB, Vec2, IndexSet)):
         return py_binop(M, interp, op, a, b, node)
